@@ -572,6 +572,38 @@ fn worker_channel_probe() -> Option<Failure> {
     Some(Failure { kind: "impl-vs-oracle", detail: format!("worker pool deadlock: 1 worker thread, {i} writes of 200 bytes with a 4 KiB memtable limit filled the worker channel (1000 rotation requests) while the worker was busy; the worker then rotated the memtable and made no progress for 60 s ({left} messages still queued, no table flushed): it waits for room in the channel it is itself supposed to drain - flushes and compactions never run again, writers halt for good at 4 sealed memtables, Database::drop hangs"), witness: None })
 }
 
+/// C14 "writers proceed eventually", the L0 halt: a writer is parked while its keyspace has 30 or more L0 runs
+/// (`check_write_halt`) and must go on once compaction has brought the number down.  31 flushes with an L0
+/// threshold of 200 (no compaction kicks in), a writer that is halted, `major_compact`, and the writer has to return.
+fn l0_halt_probe() -> Option<Failure> {
+    use std::sync::atomic::{AtomicBool, Ordering};
+    let scratch = Scratch::new("l0halt");
+    let db = Database::builder(scratch.join("db")).worker_threads_unchecked(0).open().ok()?;
+    let ks = db.keyspace("a", || KeyspaceCreateOptions::default().compaction_strategy(Arc::new(fjall::compaction::Leveled::default().with_l0_threshold(200)))).ok()?;
+    for i in 0..31 {
+        // the same keys every time: overlapping runs cannot be moved down without a merge
+        ks.insert("a", format!("v{i}")).ok()?;
+        ks.insert("z", format!("v{i}")).ok()?;
+        if !ks.rotate_memtable().ok()? { return None; }
+        // run the flush, drop the compaction requests
+        while fjall::verif::queued_worker_messages(&db) > 0 { if fjall::verif::verif_worker_step(&db).is_err() { return None; } }
+        if { use fjall::AbstractTree; ks.tree.l0_run_count() } >= 30 { break; }
+    }
+    if { use fjall::AbstractTree; ks.tree.l0_run_count() } < 30 { return None; } // compaction merged the runs after all: nothing to probe
+    let done = Arc::new(AtomicBool::new(false));
+    let (k2, d2) = (ks.clone(), done.clone());
+    let w = std::thread::spawn(move || { let _ = k2.insert("halted", "v"); d2.store(true, Ordering::Release); });
+    std::thread::sleep(Duration::from_millis(300));
+    let halted = !done.load(Ordering::Acquire);
+    if ks.major_compact().is_err() { return None; }
+    let runs_after = { use fjall::AbstractTree; ks.tree.l0_run_count() };
+    let t0 = Instant::now();
+    while !done.load(Ordering::Acquire) && t0.elapsed() < Duration::from_secs(30) { std::thread::sleep(Duration::from_millis(10)); }
+    if done.load(Ordering::Acquire) { let _ = w.join(); return if halted { None } else { Some(Failure { kind: "harness", detail: "l0 halt probe: the writer was not halted with 30 L0 runs".into(), witness: None }) }; }
+    std::mem::forget(w); std::mem::forget(ks); std::mem::forget(db); std::mem::forget(scratch);
+    Some(Failure { kind: "impl-vs-oracle", detail: format!("write halt on 30+ L0 runs: the writer was halted = {halted}; after major_compact the keyspace has {runs_after} L0 run(s), but the writer did not return from insert() within 30 s - it never proceeds"), witness: None })
+}
+
 /// Known finding F27 (C14): point reads read the latest state, scans read at the snapshot instant, which the
 /// write floor keeps below a write that is between its memtable apply and its publish.  In that window one
 /// thread can `get` a value and then not find it in a scan it opens afterwards: the two reads cannot be
@@ -630,6 +662,7 @@ fn main() {
     if replay.is_none() { if let Some(f) = stall_probe() { all.push((0, f)); } *hist.entry("stall-probe".to_string()).or_insert(0) += 1; }
     if replay.is_none() { if let Some(f) = worker_channel_probe() { all.push((0, f)); } *hist.entry("worker-channel-probe".to_string()).or_insert(0) += 1; }
     if replay.is_none() && mode_c14 { if let Some(f) = witness_f27() { all.push((0, f)); } *hist.entry("witness-f27".to_string()).or_insert(0) += 1; }
+    if replay.is_none() && mode_c14 { if let Some(f) = l0_halt_probe() { all.push((0, f)); } *hist.entry("l0-halt-probe".to_string()).or_insert(0) += 1; }
     for cs in seeds {
         let res = std::panic::catch_unwind(std::panic::AssertUnwindSafe(|| run_case(cs, &mut lean, &mut hist, &mut samples, thorough, nofloor)));
         cases += 1;
